@@ -80,6 +80,10 @@ def check_spec(spec, kind="mcfs", only=None, ignore=(), open_kw=None, attitude_p
             while tb.tb_next is not None:
                 tb = tb.tb_next
             where = f"{tb.tb_frame.f_code.co_filename.rsplit('/', 1)[-1]}:{tb.tb_frame.f_code.co_name}"
+            if spec.get("pad_files"):
+                # whether bytes behind the last record make a file ill-formed is not settled by any property: refusing such a
+                # file is fail-stop behaviour; only a silently different tree is a violation
+                return {"ok": True, "failures": [], "n_leaves": 0, "unverified": [], "raised": type(e).__name__}
             return {
                 "ok": False,
                 "failures": [{"sig": {"kind": "raises", "exc": type(e).__name__, "where": where}, "detail": f"open_alos2 raises {type(e).__name__}: {str(e)[:160]} (in {where})"}],
